@@ -137,16 +137,16 @@ class FSArray(Sequence):
 
         rowslice = normalize_slice(sys.maxsize, rowslice)
         additional_rows = max(0, rowslice.stop - len(self.rows))
-        self.rows.extend(
-            [
-                fmtstr("", *self.saved_args, **self.saved_kwargs)
-                for _ in range(additional_rows)
-            ]
-        )
+        # the array only grows once the assignment is known to be valid
+        rows = self.rows + [
+            fmtstr("", *self.saved_args, **self.saved_kwargs)
+            for _ in range(additional_rows)
+        ]
         logger.debug("num columns: %r", self.num_columns)
         logger.debug("colslice: %r", colslice)
         colslice = normalize_slice(self.num_columns, colslice)
         if slicesize(colslice) == 0 or slicesize(rowslice) == 0:
+            self.rows = rows
             return
         if slicesize(colslice) > 1 and isinstance(value, str):
             raise ValueError(
@@ -189,14 +189,14 @@ class FSArray(Sequence):
                 )
             )
         self.rows = (
-            self.rows[: rowslice.start]
+            rows[: rowslice.start]
             + [
                 fs.setslice_with_length(
                     colslice.start, colslice.stop, v, self.num_columns
                 )
-                for fs, v in zip(self.rows[rowslice], value)
+                for fs, v in zip(rows[rowslice], value)
             ]
-            + self.rows[rowslice.stop :]
+            + rows[rowslice.stop :]
         )
 
     def dumb_display(self) -> None:
